@@ -199,7 +199,8 @@ public:
     if (++nEval > cap || nEval - iterStart > cap / 2) throw EvalCap();
     double x[MAXN]; point(x);
     for (int i = 0; i < cfg.n; ++i) {
-      if (cfg.has[i] && (x[i] == cfg.lo[i] || x[i] == cfg.hi[i])) ++onBound;
+      // a constraint counts as active when an evaluation lands on a bound or within 1e-6 of the box width of it (BFGS backs off a bound by ~1e-13)
+      if (cfg.has[i]) { double w = (cfg.hi[i] - cfg.lo[i]) * 1e-6; if (x[i] <= cfg.lo[i] + w || x[i] >= cfg.hi[i] - w) ++onBound; }
       if (cfg.has[i] && !(x[i] >= cfg.lo[i] && x[i] <= cfg.hi[i])) { if (!outside) { firstOutsideSeq = nEval; firstOutsideCoord = i; firstOutsideVal = x[i]; } ++outside; }
       uint64_t b; std::memcpy(&b, &x[i], 8); evalHash = (evalHash ^ b) * 1099511628211ULL;
     }
